@@ -197,19 +197,27 @@ def run_case(case):
                     exp_ver, exp_major, exp_type = kind, G.major(kind), stream
                     nontriv = (not np2 and np.any(gains[:n, 0] != gains[:n, 1])) or n < 384
                 f = d / f"d{j}.{rec.stream}.meta"
-                f.write_text(rec.meta_text)
+                text = rec.meta_text
+                tdec = None
+                if rng.random() < 0.5:
+                    # the duration written with a limited number of decimals (rounded up or down): still within 0.3 sample of the true count
+                    tdec = int(rng.integers(5, 9)) if rec.fs > 10000 else int(rng.integers(4, 8))
+                    tsec = f"{round(rec.ns / rec.fs, tdec):.{tdec}f}".rstrip("0").rstrip(".")
+                    text = "".join((f"fileTimeSecs={tsec}" if ln.startswith("fileTimeSecs=") else ln) + "\n" for ln in text.splitlines())
+                    res.count("limited_precision_durations")
+                f.write_text(text)
                 sr = spikeglx.Reader(f)
                 res.count("derived_files")
                 lab = f"{k}/{rec.stream}/n={rec.nc}"
                 res.check(sr.fs == rec.fs, "derived:fs", f"{lab}: fs {sr.fs} expected {rec.fs}")
                 res.check(sr.nc == rec.nc, "derived:nc", f"{lab}: nc {sr.nc} expected {rec.nc}")
                 res.check(sr.nsync == rec.nsync, "derived:nsync", f"{lab}: nsync {sr.nsync} expected {rec.nsync}")
-                res.check(sr.ns == rec.ns, "derived:ns", f"{lab}: ns {sr.ns} expected {rec.ns} (fs={rec.fs})")
+                res.check(sr.ns == rec.ns, "derived:ns", f"{lab}: ns {sr.ns} expected {rec.ns} (fs={rec.fs}" + (f", duration written with {tdec} decimals)" if tdec else ")"))
                 res.check(sr.type == exp_type, "derived:type", f"{lab}: type {sr.type} expected {exp_type}")
                 res.check(sr.version == exp_ver, "derived:version", f"{lab}: version {sr.version} expected {exp_ver}")
                 res.check(sr.major_version == exp_major, "derived:major_version", f"{lab}: major version {sr.major_version} expected {exp_major}")
                 res.check(sr.shape == (rec.ns, rec.nc), "derived:shape", f"{lab}: shape {sr.shape}")
-                res.check(abs(sr.rl - rec.ns / rec.fs) <= 1e-9 * max(1.0, rec.ns / rec.fs), "derived:rl", f"{lab}: rl {sr.rl}")
+                res.check(abs(sr.rl - rec.ns / rec.fs) <= (1e-9 * max(1.0, rec.ns / rec.fs) if tdec is None else 0.6 * 10.0 ** -tdec), "derived:rl", f"{lab}: rl {sr.rl}")
                 s2v = np.asarray(sr.sample2volts, float)
                 ok = s2v.shape == (rec.nc,) and np.allclose(s2v, rec.s2v, rtol=1e-6, atol=0)
                 res.check(ok, "derived:s2v", lambda: f"{lab}: sample2volts {s2v[:3]}.. expected {rec.s2v[:3]}.. "
